@@ -159,17 +159,23 @@ func refLines(data []byte) []string {
 	return ls
 }
 
-// expected computes the expected event sequence; the per-line outcome is
-// Record.UnmarshalText on that line alone (C07 decides that function).
+// expected computes the expected event sequence.  Whether a line is
+// well-formed, and which record it denotes, is decided by the independent
+// field-grammar model (internal/model, the C07 reference), not by the code
+// under test; only the wording of the error of an ill-formed line is taken
+// from Record.UnmarshalText on that line alone.
 func expected(data []byte, src string) (evs []event) {
 	for i, l := range refLines(data) {
-		rec := &hostsfile.Record{}
-		err := rec.UnmarshalText([]byte(l))
-		if err != nil {
-			evs = append(evs, event{Kind: "invalid", Source: src, Line: i + 1, Msg: fmt.Sprintf("line %d: %s", i+1, err), Data: l})
-		} else {
-			evs = append(evs, event{Kind: "add", Source: src, Addr: rec.Addr, Names: rec.Names})
+		want := model.HostsLine(l)
+		if want.Class == "ok" {
+			evs = append(evs, event{Kind: "add", Source: src, Addr: want.Addr, Names: want.Names})
+			continue
 		}
+		msg := "<the line is ill-formed (" + want.Class + ") but Record.UnmarshalText accepts it>"
+		if err := (&hostsfile.Record{}).UnmarshalText([]byte(l)); err != nil {
+			msg = err.Error()
+		}
+		evs = append(evs, event{Kind: "invalid", Source: src, Line: i + 1, Msg: fmt.Sprintf("line %d: %s", i+1, msg), Data: l})
 	}
 	return evs
 }
